@@ -102,7 +102,8 @@ void run_efun (int f, mixed a, mixed b) {
   case 48: r = ({ a, 0, ([ ]) }); r[1] = r; r[2]["self"] = r; s1 = sprintf ("%O", r); r[2] = 0; r[1] = 0; break;   // cyclic while it runs
   case 49: r = parse_command ("get sword from bag" + sizeof (a), ({ }), " 'get' %s 'from' %s ", s1, s2); r = ({ s1, s2 }); break;
   case 50: r = ({ ({ a }), ([ 1 : b ]) }); i1 = sscanf ("ab 12 cd", "%s %d %s", r[0], i1, r[1]); s1 = "x" + sizeof (a); sscanf (s1 + " yy zz", "%s %s", s1, s2); break;
-  case 51: i1 = call_out ((: cb_keep :), 100, ({ a }), b); r = find_call_out (i1); r = call_out_info (); remove_call_out (i1); break;
+  case 51: i1 = call_out ("cmp3", 100, ({ a }), b, 1); r = find_call_out (i1) + find_call_out ("cmp3"); r = call_out_info (); remove_call_out ("cmp3"); break;
+  case 71: i1 = call_out ((: cb_keep :), 100, ({ a }), b); r = find_call_out (i1); r = call_out_info (); remove_call_out (i1); break;   // not with injected errors: the handle would be lost
   case 52: r = (: three, ({ a }), b :); r = evaluate (r, ([ 1 : a ])); r = (: three :); r = evaluate (r, a, b, ({ a, b })); r = function_owner ((: same, a :)); break;
   case 53: r = bind ((: same, ({ a }) :), this_object ()); r = evaluate (r); break;
   case 54: r = call_other (this_object (), ({ "three", ({ a }), b, 1 })); r = ({ this_object (), this_object () })->same (({ b })); break;
@@ -204,7 +205,7 @@ int do_op (string line) {
   case "flush":
     // after an injected error: what an aborted group may legitimately have left behind
     store = 0;
-    remove_call_out ();
+    while (remove_call_out ("cmp3") >= 0) ;
     sprintf ("%d", 1);
     break;
   case "efun":
